@@ -303,6 +303,46 @@ def refresh_obligation(prog, rule, cname, mname):
                     dep |= {x.id for x in ast.walk(vt_) if isinstance(x, ast.Name) and x.id in params_}
             seen_ = {x.id for x in ast.walk(rz_.term(st.test, st)) if isinstance(x, ast.Name)} if isinstance(st, ast.If) else set()
             unseen = sorted(dep - seen_)
+            # the same question for PARTS of an argument: attributes this method cuts out of it (self.cov_hyperpars = theta[cov_slice],
+            # self.mean_hyperpars = theta[mean_slice]) - a value computed from one part is not protected by a key made of another
+            if not unseen and isinstance(st, ast.If):
+                parts, whole = {}, set()
+                for s3 in fn.body:
+                    if isinstance(s3, ast.Assign) and len(s3.targets) == 1 and isinstance(s3.targets[0], ast.Attribute) \
+                            and isinstance(s3.targets[0].value, ast.Name) and s3.targets[0].value.id == sn:
+                        v3 = s3.value
+                        if isinstance(v3, ast.Name) and v3.id in params_:
+                            whole.add(s3.targets[0].attr)             # self.hyperpars = hyperpars
+                        elif isinstance(v3, ast.Subscript) and ((isinstance(v3.value, ast.Name) and v3.value.id in params_) or (
+                                isinstance(v3.value, ast.Attribute) and isinstance(v3.value.value, ast.Name) and v3.value.value.id == sn
+                                and v3.value.attr in whole)):
+                            parts[s3.targets[0].attr] = U(v3)
+
+                def part_tokens(node):
+                    toks = set()
+                    for x in ast.walk(node):
+                        if isinstance(x, ast.Attribute) and isinstance(x.value, ast.Name) and x.value.id == sn and x.attr in parts:
+                            toks.add(x.attr)
+                        elif (isinstance(x, ast.Name) and x.id in params_) or (isinstance(x, ast.Attribute) and isinstance(x.value, ast.Name)
+                                                                               and x.value.id == sn and x.attr in whole):
+                            toks.add("*")        # the whole argument
+                    return toks
+                guard_t = part_tokens(st.test)
+                for s3 in ast.walk(fn):
+                    if isinstance(s3, ast.Assign) and len(s3.targets) == 1 and isinstance(s3.targets[0], ast.Name) \
+                            and any(isinstance(x, ast.Name) and x.id == s3.targets[0].id for x in ast.walk(st.test)):
+                        guard_t |= part_tokens(s3.value)         # a local key (`key = tuple(self.cov_hyperpars)`)
+                need_t = set()
+                for s2 in ast.walk(st):
+                    if isinstance(s2, ast.Assign) and any(isinstance(t, ast.Attribute) and isinstance(t.value, ast.Name) and t.value.id == sn
+                                                           and t.attr == a for t in s2.targets):
+                        need_t |= part_tokens(s2.value)
+                if "*" not in guard_t and guard_t:
+                    miss_t = sorted((need_t - guard_t) - {"*"}) + (["the whole argument"] if "*" in need_t else [])
+                    if miss_t:
+                        why.append(f"self.{a} is computed from self.{miss_t[0]} but is refreshed only when `{U(st.test)}` (line {st.lineno}), a test on "
+                                   f"{sorted(guard_t)} only: a call that changes just {miss_t[0]} keeps the stale value")
+                        continue
             if unseen and isinstance(st, ast.If):
                 why.append(f"self.{a} is computed from the argument `{unseen[0]}` but is refreshed only when `{U(st.test)}` (line {st.lineno}), "
                            f"a test that does not look at `{unseen[0]}`: a call with another value of it gets the stale result")
@@ -815,6 +855,11 @@ def picklable_state_obligations(prog, rule, classes):
     (`self.__f`: pickle looks `__f` up on the class, where it is called `_Class__f`)."""
     from ..model import qual
     out = []
+    module_lambdas = {}
+    for ci in classes:
+        if ci.module.relpath not in module_lambdas:
+            module_lambdas[ci.module.relpath] = {st.targets[0].id for st in ci.module.tree.body if isinstance(st, ast.Assign) and len(st.targets) == 1
+                                                 and isinstance(st.targets[0], ast.Name) and isinstance(st.value, ast.Lambda)}
     for ci in classes:
         hits = []
         for mname, fn in ci.methods.items():
@@ -837,6 +882,8 @@ def picklable_state_obligations(prog, rule, classes):
                             why = "a lambda"
                         elif isinstance(v, ast.Name) and v.id in local_defs | local_lambdas:
                             why = f"the local function `{v.id}`"
+                        elif isinstance(v, ast.Name) and v.id in module_lambdas.get(ci.module.relpath, ()):
+                            why = f"the module-level name `{v.id}`, which is bound to a lambda (pickle finds no function called `<lambda>` in the module)"
                         elif isinstance(v, ast.Attribute) and isinstance(v.value, ast.Name) and v.value.id in (sn, ci.name, "cls") \
                                 and v.attr.startswith("__") and not v.attr.endswith("__") \
                                 and (v.attr in ci.methods or any(v.attr in c.methods for c in prog.mro(ci))):
@@ -920,3 +967,76 @@ def call_order_obligations(prog, rule, rels):
             msg = f"`{text}` in {where} (line {line}): {why}" + (f" (+{len(hits) - 1} more)" if len(hits) > 1 else "")
         out.append(struct_ob(rule, rel_, not hits, msg, rel_, hits[0][0] if hits else 0, slots={"calls_resolved": n_calls, "hits": len(hits)}))
     return out
+
+
+def final_state_obligations(prog, rule, cname, rel, sources, method="__init__", tier="F"):
+    from ..model import qual
+    """Inside a constructor, an attribute derived from another one is derived from its FINAL value: no statement that defines
+    self.B by reading self.A may come before a later (re)assignment of self.A - `self.A = ..`, `self.A[..] = ..`, `self.A op= ..` -
+    unless B itself is assigned again afterwards, or B is a step on the way to A's final value (A's later write reads it).  `sources` names the
+    attributes A whose final value the results must be computed from.  (A re-assignment that reads its own attribute, `self.h = refine(self.h)`, is
+    of course allowed.)  Statement order is the order of the (canonical) text; both arms of an `if` count."""
+    ci = prog.cls(cname)
+    c, fn = prog.find_method(ci, method)
+    if fn is None or not fn.args.args:
+        raise AnalysisError(f"anchor vanished: {cname}.{method}")
+    sn = fn.args.args[0].arg
+    order = {}
+    k = [0]
+
+    def number(stmts):
+        for st in stmts:
+            k[0] += 1
+            order[id(st)] = k[0]
+            for nm in ("body", "orelse", "finalbody"):
+                number(getattr(st, nm, []) or [])
+            for h in getattr(st, "handlers", []) or []:
+                number(h.body)
+    number(fn.body)
+    writes, defs = {}, []
+    for st in ast.walk(fn):
+        if id(st) not in order or not isinstance(st, (ast.Assign, ast.AugAssign)):
+            continue
+        tgts = st.targets if isinstance(st, ast.Assign) else [st.target]
+        for t in tgts:
+            for el in (t.elts if isinstance(t, (ast.Tuple, ast.List)) else [t]):
+                b = el
+                while isinstance(b, ast.Subscript):
+                    b = b.value
+                if isinstance(b, ast.Attribute) and isinstance(b.value, ast.Name) and b.value.id == sn:
+                    writes.setdefault(b.attr, []).append(order[id(st)])
+                    reads = {x.attr for x in ast.walk(st.value) if isinstance(x, ast.Attribute) and isinstance(x.value, ast.Name)
+                             and x.value.id == sn and isinstance(x.ctx, ast.Load)}
+                    # through the receiver's own methods: self.norm(..) reads what norm reads
+                    for cl in ast.walk(st.value):
+                        if isinstance(cl, ast.Call) and isinstance(cl.func, ast.Attribute) and isinstance(cl.func.value, ast.Name) \
+                                and cl.func.value.id == sn:
+                            c2, f2 = prog.find_method(ci, cl.func.attr)
+                            if f2 is not None and f2.args.args:
+                                s2 = f2.args.args[0].arg
+                                reads |= {x.attr for x in ast.walk(f2) if isinstance(x, ast.Attribute) and isinstance(x.value, ast.Name)
+                                          and x.value.id == s2 and isinstance(x.ctx, ast.Load)}
+                    defs.append((b.attr, order[id(st)], reads, st))
+    bad = []
+    # attributes a later write of A itself (transitively) reads are steps of an iteration towards A's final value, not results
+    feeds = {}
+    for attr, pos, reads, st in defs:
+        feeds.setdefault(attr, set()).update(reads)
+    for attr, pos, reads, st in defs:
+        for a in sorted(reads):
+            if a == attr or a not in sources:
+                continue
+            later = [w for w in writes.get(a, []) if w > pos]
+            seen, todo = set(), [a]
+            while todo:
+                x = todo.pop()
+                for y in feeds.get(x, ()):
+                    if y not in seen:
+                        seen.add(y)
+                        todo.append(y)
+            if attr in seen:
+                continue
+            if later and not any(w2 > max(later) for w2 in writes.get(attr, []) if w2 != pos):
+                bad.append(f"self.{attr} (line {st.lineno}: `{U(st)[:70]}`) is computed from self.{a} before self.{a} takes its final value")
+    return [struct_ob(rule, qual(c, fn) + "[final-state]", not bad, "; ".join(sorted(set(bad))[:2]), rel, fn.lineno,
+                      slots={"attributes_written": len(writes), "derived_definitions": len(defs)}, tier=tier)]
